@@ -1,5 +1,5 @@
 (* C08 - top-level lemmas about parse_iso (the statements Props/C08.v exports). *)
-From Coq Require Import List ZArith NArith Bool Lia ZifyBool.
+From Coq Require Import List ZArith NArith Bool Lia ZifyBool Psatz.
 From Orso Require Import Base.Civil Gen.C08_Tables Model.C08.
 From Orso Require Import Proofs.C08_Epoch Proofs.C08_Str Proofs.C08_Utf8 Proofs.C08_Strip Proofs.C08_Core Proofs.C08_Render.
 Import ListNotations.
@@ -31,11 +31,12 @@ Proof.
   destruct x as [n|n|f|f|s|b|y m d|y m d h mi s us|a|r|]; cbn [parse_iso_body]; try discriminate.
   - apply epoch_branch_raises.
   - apply epoch_branch_raises.
-  - destruct f as [| |m e']; cbn [int_of_float bind]; try (intros [= <-]; unfold body_exn; tauto). apply epoch_branch_raises.
-  - destruct f as [| |m e']; cbn [int_of_float bind]; try (intros [= <-]; unfold body_exn; tauto). apply epoch_branch_raises.
+  - destruct f as [| |m e']; cbn [floor_of_float bind]; try (intros [= <-]; unfold body_exn; tauto). apply epoch_branch_raises.
+  - destruct f as [| |m e']; cbn [floor_of_float bind]; try (intros [= <-]; unfold body_exn; tauto). apply epoch_branch_raises.
   - apply str_branch_raises.
   - destruct (utf8_decode b); [apply str_branch_raises|intros [= <-]; now left].
-  - destruct a; try discriminate. apply epoch_branch_raises.
+  - destruct a as [n|]; [apply epoch_branch_raises|intros [= <-]; unfold body_exn; tauto].
+  - destruct r; discriminate.
 Qed.
 
 (* totality: parse_iso never raises *)
@@ -258,8 +259,8 @@ Proof. split; apply (parse_iso_of_body_raise _ ValueError); (reflexivity || now 
 Lemma float_inf : parse_iso (VFloat FInf) = Ok None /\ parse_iso (VNpFloat64 FInf) = Ok None.
 Proof. split; apply (parse_iso_of_body_raise _ OverflowError); (reflexivity || (right; now left)). Qed.
 Lemma float_finite m e :
-  parse_iso (VFloat (FFin m e)) = parse_iso (VInt (trunc_of m e)) /\
-  parse_iso (VNpFloat64 (FFin m e)) = parse_iso (VInt (trunc_of m e)).
+  parse_iso (VFloat (FFin m e)) = parse_iso (VInt (floor_of m e)) /\
+  parse_iso (VNpFloat64 (FFin m e)) = parse_iso (VInt (floor_of m e)).
 Proof. split; reflexivity. Qed.
 
 (* ---------- native inputs, other inputs, casts ---------- *)
@@ -315,30 +316,29 @@ Proof.
   rewrite (Hsh v Hs) in Hv. discriminate.
 Qed.
 
-Lemma float_nonneg_floor m e : 0 <= m -> trunc_of m e = floor_of m e.
+(* the floor really is the floor: floor_of m e <= m * 2^e < floor_of m e + 1 (scaled by 2^-e when e < 0) *)
+Lemma floor_of_spec m e :
+  (0 <= e -> floor_of m e = m * 2 ^ e) /\
+  (e < 0 -> floor_of m e * 2 ^ (- e) <= m < (floor_of m e + 1) * 2 ^ (- e)).
 Proof.
-  intros H. unfold trunc_of, floor_of. destruct (0 <=? e) eqn:E; [reflexivity|].
-  apply Z.quot_div_nonneg; [exact H|]. apply Z.pow_pos_nonneg; lia.
+  unfold floor_of. split; intros H.
+  - replace (0 <=? e) with true by lia. reflexivity.
+  - replace (0 <=? e) with false by lia.
+    assert (0 < 2 ^ (- e)) as Hp by (apply Z.pow_pos_nonneg; lia).
+    pose proof (Z.div_mod m (2 ^ (- e)) ltac:(lia)) as Hd.
+    pose proof (Z.mod_pos_bound m (2 ^ (- e)) Hp) as Hm. nia.
 Qed.
 
-(* ---------- candidate findings and observations, by computation ---------- *)
-(* F-C08-3: an instant before 1970 with a fractional second is rounded up, not truncated *)
-Lemma float_floor_refuted :
-  exists m e, m < 0 /\ e < 0 /\ parse_iso (VFloat (FFin m e)) <> parse_iso (VInt (floor_of m e)).
-Proof. exists (-3), (-1). split; [lia|]. split; [lia|]. vm_compute. discriminate. Qed.
-
-Lemma np_ns_floor_refuted :
-  exists n, parse_iso (VNpDatetime64 (AsInt n)) <> parse_iso (VInt (n / 1000000000)).
-Proof. exists (-1500000000). vm_compute. discriminate. Qed.
-
-Lemma np_datetime64_units :
-  parse_iso (VNpDatetime64 AsNone) = Ok None /\
-  (forall y m d, parse_iso (VNpDatetime64 (AsDate y m d)) = Ok (Some (y, m, d, 0, 0, 0, 0))) /\
-  (forall y m d h mi s us, parse_iso (VNpDatetime64 (AsDatetime y m d h mi s us)) = Ok (Some (y, m, d, h, mi, s, 0))).
-Proof. repeat split. Qed.
-
-(* F-C08-4: whatever to_pydatetime() returns is passed through, sub-second part included *)
-Lemma topy_passthrough r : parse_iso (VToPy r) = Ok r.
+(* ---------- numpy.datetime64 and objects with to_pydatetime ---------- *)
+Lemma np_datetime64_secs n : parse_iso (VNpDatetime64 (NpSecs n)) = parse_iso (VInt n).
 Proof. reflexivity. Qed.
-Lemma topy_refuted : exists t, valid_dt t = false /\ parse_iso (VToPy (Some t)) = Ok (Some t).
-Proof. exists (2020, 1, 1, 10, 0, 0, 500000). split; reflexivity. Qed.
+Lemma np_datetime64_overflow : parse_iso (VNpDatetime64 NpOverflow) = Ok None.
+Proof. apply (parse_iso_of_body_raise _ OverflowError); [reflexivity|right; now left]. Qed.
+Lemma np_datetime64_nat : parse_iso (VNpDatetime64 (NpSecs int64_min)) = Ok None.
+Proof. rewrite np_datetime64_secs. apply epoch_out_of_range. left. reflexivity. Qed.
+
+Lemma topy_native :
+  (forall y m d h mi s us, parse_iso (VToPy (ToDatetime y m d h mi s us)) = parse_iso (VDatetime y m d h mi s us)) /\
+  (forall y m d, parse_iso (VToPy (ToDate y m d)) = parse_iso (VDate y m d)) /\
+  parse_iso (VToPy ToOther) = Ok None.
+Proof. repeat split. Qed.
